@@ -20,6 +20,8 @@ NARROW_CASTS = {"np.int8", "np.int16", "np.uint8", "np.uint16", "numpy.int8", "n
 def array_layout(ctx: Ctx, rule: str) -> None:
     """field layout of the array forms agrees with the slot map used for the kernels (0=start 1=end 2=duration 3=category)"""
     M = ctx.model
+    from .nbk import check_index_not_sentinel
+    check_index_not_sentinel(ctx, rule)
     want = {0: "segment.start", 1: "segment.end", 2: "segment.duration"}
     for qn, arr_kind in (("AbstractDissimilarity._build_arrays_continuum", 2), ("AbstractDissimilarity._build_arrays_alignment", 3)):
         f = ctx.fn(qn, rule)
